@@ -65,14 +65,19 @@ def _injected_generator(cfg):
     ids, starts, targets, positions = arr("id"), arr("start"), arr("target"), arr("position")
     assert grids.shape[1:] == (n, n) and ids.shape[1:] == (k,)
 
+    from jumanji.environments.routing.connector.generator import UniformRandomGenerator
+
+    shipped = UniformRandomGenerator(grid_size=n, num_agents=k)      # template: every field the library's State has
+
     class InjectedGenerator(Generator):
         def __init__(self):
             super().__init__(grid_size=n, num_agents=k)
 
         def __call__(self, key):
             j = key[1] % grids.shape[0]
-            agents = Agent(id=ids[j], start=starts[j], target=targets[j], position=positions[j])
-            return State(grid=grids[j], step_count=jnp.array(0, jnp.int32), agents=agents, key=key)
+            tpl = shipped(key)
+            agents = inject.state_like(tpl.agents, id=ids[j], start=starts[j], target=targets[j], position=positions[j])
+            return inject.state_like(tpl, grid=grids[j], step_count=jnp.array(0, jnp.int32), agents=agents, key=key)
 
     return InjectedGenerator()
 
